@@ -40,7 +40,19 @@ var tierOf = map[uint64]string{}
 
 func init() {
 	// ---- C10: process crash
+	mixCrash := func(r *core.Rng, tier string) *prog.Program {
+		maxTx := 12
+		if tier == "thorough" {
+			maxTx = 30
+		}
+		p := gen.MixParams{Modes: []int{0}, Segs: []int64{128, 192, 256, 512}, DS: []string{"kv", "list", "set", "zset"},
+			MinTx: 3, MaxTx: maxTx, MaxOps: 4, BadEnds: 0.1, BigP: 0.1, Restart: 0.05, NoEmptyMember: true, Advance: r.Bool(0.3)}
+		return gen.Mix(r, p)
+	}
 	c10gen := func(r *core.Rng, tier string) *prog.Program {
+		if r.Bool(0.4) {
+			return mixCrash(r, tier)
+		}
 		p := gen.KV(r, crashKVParams(r, tier, []int{0, 1}))
 		return p
 	}
@@ -56,7 +68,7 @@ func init() {
 	}
 	Register(&Spec{
 		ID: "C10", Level: "fault_enumeration",
-		Rule: "seeded histories (multi-op transactions, failed commits with an oversized entry at a non-first position, rollbacks, frozen clock so that transactions share a millisecond, dirty restarts) x crash images taken at a seeded sample (thorough: all) of the file-mutation points, plus torn prefixes of every sampled write at record-field boundaries; each image is mounted in a fresh world, opened and fully observed; " +
+		Rule: "seeded histories (KV in both RAM index modes; lists, sets and sorted sets in key+value mode; multi-op transactions, failed commits with an oversized entry at a non-first position, rollbacks, frozen clock so that transactions share a millisecond, dirty restarts) x crash images taken at a seeded sample (thorough: all) of the file-mutation points, plus torn prefixes of every sampled write at record-field boundaries; each image is mounted in a fresh world, opened and fully observed; " +
 			"required: Open succeeds and the observation equals the model state after the acknowledged transactions, or that plus the in-flight transaction if its commit went on to succeed; non-trivial = at least 3 distinct images of which at least one torn",
 		Gen: c10gen, Exec: c10("quick"), Deep: deep10,
 		Classes: classes("recovery", "open-failed", "open-panic"),
@@ -66,6 +78,11 @@ func init() {
 
 	// ---- C11: power loss with SyncEnable
 	c11gen := func(r *core.Rng, tier string) *prog.Program {
+		if r.Bool(0.3) {
+			p := mixCrash(r, tier)
+			p.Cfg.Sync = true
+			return p
+		}
 		kp := crashKVParams(r, tier, []int{0, 1})
 		if r.Bool(0.25) {
 			// separate sub-batch with Merge: the only place where removals (which
